@@ -1139,7 +1139,7 @@ class Interp:
         text = line if isinstance(line, str) else line[:100].decode("latin-1")
         self.session_gone(sess, ms, r, text)
         self.check_prompt(sess, r, text)
-        if r.status == "BAD" and "Unhandled exception" in (r.text or "") and self.prog.get("mode") == "concurrent" and "C10" in self.props and self.prog.get("family") != "random":
+        if r.status == "BAD" and "Unhandled exception" in (r.text or "") and self.prog.get("mode") == "concurrent" and "C10" in self.props and self.prog.get("family") not in ("random", "rename-race"):
             # (not in the long random workloads: there CREATE/DELETE/RENAME of several sessions race each other, which is
             # open finding F90)
             # C10: the server's catch-all for an exception that escaped a command is the response of no sequential order
